@@ -174,6 +174,12 @@ def exitAt (shape : List Tok) (n : Nat) (c : Counters) (fires : Fires := false) 
 def Paired (shape : List Tok) : Bool :=
   shape.all fun t => t == .sysPair || t == .vigPair || t == .recover || t == .autoDestroy
 
+/-- `Close()` of an idle swamp, followed by a `WaitForGracefulClose` caller: the closer (thread 0;
+    `Close` has no drain, the vigil check stands for "nothing in flight") reaches its cancel — or
+    returns early without it — and the waiter then tries to return -/
+def closeTrace (alwaysCancels : Bool) : List Act :=
+  [.wLock 0, .wCheck 0] ++ (if alwaysCancels then [.wCancel 0] else []) ++ [.gReturn]
+
 /-- the auto-destroy code path of one goroutine that holds a vigil on the swamp: (cease its own
     vigil,) then the drain; with no other operation in flight -/
 def autoDestroyTrace (cfg : Cfg) (ceaseFirst : Bool) : List Act :=
